@@ -48,7 +48,8 @@ def cases(ctx):
                     k += 1
                     if ctx.mine(k):
                         yield {"kind": "special", "flavour": flav, "mnemonic": m, "slot": slot, "special": special,
-                               "base": codec.rand_values(rng, isa.TABLE[flav][m][1]), "name": rng.choice(["delta", "t0", "angle_1", "n"]),
+                               "base": codec.rand_values(rng, isa.TABLE[flav][m][1]),
+                               "name": ["delta", "t0", "angle_1", "n", "0", "1st_angle", "alice.theta", "angle-num", "R1", "LOOP"][k % 10],
                                "with_lineno": k % 3 == 0}
     for m, slot in (("set", 1), ("jmp", 0), ("beq", 2), ("bez", 1), ("rot_x", 1), ("rot_z", 2)):
         for special in ("true", "false", "carrier"):
